@@ -35,6 +35,11 @@ def verdicts(records, contracts):
     runs, launches = agg.finalize_all()
     out = {"runs": {r.run_id: dataclasses.asdict(r) for r in runs},
            "launches": {f"{l.run_space_launch_id}#{l.run_space_attempt}": dataclasses.asdict(l) for l in launches}}
+    # the roll-up a caller gets for ONE launch attempt must be the one finalize_all reports for it
+    for l in launches:
+        one = dataclasses.asdict(agg.finalize_launch(l.run_space_launch_id, l.run_space_attempt))
+        if json.dumps(one, sort_keys=True, default=str) != json.dumps(dataclasses.asdict(l), sort_keys=True, default=str):
+            out.setdefault("finalize_launch_differs_from_finalize_all", []).append(f"{l.run_space_launch_id}#{l.run_space_attempt}")
     runs2, launches2 = agg.finalize_all()
     out2 = {"runs": {r.run_id: dataclasses.asdict(r) for r in runs2},
             "launches": {f"{l.run_space_launch_id}#{l.run_space_attempt}": dataclasses.asdict(l) for l in launches2}}
@@ -137,8 +142,12 @@ def exercise(run, records, files_records, label, rng):
         got, got2 = verdicts(prefix, None)
         run.count("aggregator_runs")
         run.count("prefixes_checked")
-        if got != got2:
+        if {k_: v_ for k_, v_ in got.items() if k_ in ("runs", "launches")} != got2:
             run.violation("finalize_twice_differs", f"{label}: finalising twice gives different verdicts at prefix {k}", dict(witness, prefix=k))
+        if got.get("finalize_launch_differs_from_finalize_all"):
+            run.violation("finalize_launch_differs_from_finalize_all",
+                          f"{label}: finalize_launch(id, attempt) and the entry finalize_all() reports for the same attempt differ at prefix {k}: "
+                          f"{got['finalize_launch_differs_from_finalize_all']}", dict(witness, prefix=k))
         compare_with_reference(run, got, reference(prefix), dict(witness, prefix=k), f"{label} prefix {k}/{len(records)}")
         run.case(canon_hash([shape, "prefix", k]), k >= 3)
     # ---- one long-lived aggregator fed record by record and finalised after every record (live monitoring):
@@ -154,6 +163,7 @@ def exercise(run, records, files_records, label, rng):
         run.count("aggregator_runs")
         run.count("incremental_finalisations")
         fresh, _ = verdicts(records[:k], None)
+        fresh.pop("finalize_launch_differs_from_finalize_all", None)
         if json.dumps(got_live, sort_keys=True, default=str) != json.dumps(fresh, sort_keys=True, default=str):
             field = _first_field_diff(fresh, got_live)
             run.violation(f"incremental_verdict_stale:{field}",
@@ -168,6 +178,7 @@ def exercise(run, records, files_records, label, rng):
             sets.append(("subset", sub))
     for kind, recs in sets:
         base, _ = verdicts(recs, None)
+        base.pop("finalize_launch_differs_from_finalize_all", None)
         orders = []
         nperm = 20 if kind == "full" else 2
         for _ in range(nperm):
@@ -182,6 +193,7 @@ def exercise(run, records, files_records, label, rng):
                     orders.append(("kway_interleaving", kway(files_records, rng)))
         for oname, order in orders:
             got, got2 = verdicts(order, None)
+            got.pop("finalize_launch_differs_from_finalize_all", None)
             run.count("aggregator_runs")
             run.count(f"orders_{oname}")
             if got != got2:
@@ -287,6 +299,25 @@ def run(run):
             run.count(f"launch_mode_{mode}")
             run.count("launch_failing" if case["first_fail"] is not None else "launch_clean")
             exercise(run, records, per_file, f"launch:{mode}:fail_at={case['first_fail']}", rng)
+        # ---- retries: TWO attempts of the SAME launch id in one aggregator (attempt 1 crashed or failed, attempt 2 is
+        # the retry `--run-space-launch-id X --run-space-attempt 2`): every (launch id, attempt) has its own roll-up
+        for ri in range(max(1, n_launch // 3)):
+            lid = f"retry-{seed}-{ri}"
+            all_records, per_file_all = [], []
+            for attempt, fail_at in ((1, rng.choice([0, 1])), (2, rng.choice([None, None, 1]))):
+                case = cli.launch_case(g, fail_at=fail_at, n_runs=rng.randint(2, 4))
+                wd = tempfile.mkdtemp(prefix="retry-", dir=scratch)
+                res = cli.run_launch(case, wd, trace_mode=("file", "dir")[(ri + attempt) % 2], detail="hash",
+                                     extra_argv=["--run-space-launch-id", lid, "--run-space-attempt", str(attempt)])
+                recs = cli.global_order(res["files"])
+                if attempt == 1 and len(recs) > 3 and rng.random() < 0.5:
+                    recs = recs[: rng.randint(2, len(recs) - 1)]        # attempt 1 crashed: only a prefix reached the disk
+                all_records += recs
+                per_file_all += [r for _p, r in sorted(res["files"].items()) if r] if len(recs) == len(cli.global_order(res["files"])) else [recs]
+                shutil.rmtree(wd, ignore_errors=True)
+            if all_records:
+                run.count("retry_launch_pairs")
+                exercise(run, all_records, per_file_all, f"retry:{lid}", rng)
         run.info["sample_traces"] = "see samples"
         if not run.samples:
             run.samples.append({"note": "shapes of the real traces are in the witnesses; e.g. single-run trace = pipeline_start, ser*, pipeline_end"})
